@@ -270,9 +270,14 @@ def observe(ideal_source, case):
 def job_main(argv):
     spec = json.load(open(argv[2]))
     sys.path.insert(0, core.SRC)
+    import bldfm
+    import bldfm.interface
     from bldfm.utils import ideal_source
 
-    json.dump([observe(ideal_source, c) for c in spec["cases"]], open(argv[3], "w"))
+    out = [observe(ideal_source, c) for c in spec["cases"]]
+    # the function the package exports and the one the single run calls are this very function
+    same = bldfm.ideal_source is ideal_source and bldfm.interface.ideal_source is ideal_source
+    json.dump({"obs": out, "same_object": bool(same)}, open(argv[3], "w"))
     return 0
 
 
@@ -308,7 +313,10 @@ def check(ctx):
                                 timeout=600, cwd=d, env=core.pyenv())
     if rc != 0 or not os.path.exists(os.path.join(d, "out.json")):
         raise core.CheckFailure("ideal_source implementation job failed (rc=%s): %s" % (rc, (out + err)[-1500:]))
-    obs = json.load(open(os.path.join(d, "out.json")))
+    res = json.load(open(os.path.join(d, "out.json")))
+    obs = res["obs"]
+    if not res["same_object"]:
+        ctx.fail("correspondence", "C13:ideal:exported-object", "bldfm.ideal_source / bldfm.interface.ideal_source is not bldfm.utils.ideal_source")
     terms, icases, meta = [], [], {}
     n_cells = n_skipped = n_ones = n_boundary = 0
     hist = {}
@@ -428,6 +436,14 @@ def oracle_case(ideal_source, case):
     nx, ny = case["nx"], case["ny"]
     desc = "ideal_source((%r, %r), (%r, %r), src_loc=%r%s)" % (nx, ny, case["xmx"], case["ymx"], None if case["loc"] is None else tuple(case["loc"]),
                                                               "" if case["shape"] is None else ", shape=%r" % case["shape"])
+    # the field is a function of the arguments of THIS call: a sibling request (same sizes, extents and shape, another
+    # location) is made first and discarded, so that a memo keyed too coarsely shows up in a single replay as well
+    try:
+        xs0, ys0 = loc_float(case)
+        call_impl(ideal_source, dict(case, loc=[xs0 + float(case["xmx"]) / 4 + 1.0, ys0 - float(case["ymx"]) / 8 - 0.5], call="kw",
+                                     shape=shape))
+    except Exception:
+        pass
     try:
         a, untouched = call_impl(ideal_source, case)
     except ZeroDivisionError:
